@@ -4,7 +4,8 @@
 //! Everything between the ClientHello and `ValidateSNI`'s decision is hyperdriver's: the acceptor, `TlsConnectionInfo::server`,
 //! the info channel, the connection service that attaches the info to each request.
 //!
-//! line: `snie <h2 0|1> <hostHdr|-> <hostHdrPort|-> <authority|-> <authPort|-> <tls 0|1> <serverName|->`   (as `sni`)
+//! line: `snie <h2 0|1> <hostHdr|-> <hostHdrPort|-> <authority|-> <authPort|-> <tls 0|1> <serverName|-> [<alpn|na>]`   (as `sni`;
+//!       `na`: the HTTP/1.1 client offers no ALPN)
 //! obs : `fwd <handler saw validated_server_name 0|1>` | `rej` | `err-<stage>`
 use crate::rng::Rng;
 use hyperdriver::bridge::io::TokioIo;
@@ -37,7 +38,9 @@ pub fn gen(r: &mut Rng, _i: u64) -> String {
     let tls = r.chance(9, 10);
     // the name in SNI: a DNS name (an IP address is never sent as SNI: `-`)
     let sni = if !tls || r.chance(1, 8) { "-".to_string() } else { let n = if r.chance(7, 10) { base } else { *r.pick(NAMES) }; if n == "127.0.0.1" { "-".into() } else { n.to_string() } };
-    format!("{} {hh} {hp} {ah} {ap} {} {sni}", h2 as u8, tls as u8)
+    // an HTTP/1.1 client may offer no ALPN at all (with no server name either, the connection's TLS information is "empty")
+    let alpn = if !h2 && r.chance(1, 2) { "na" } else { "alpn" };
+    format!("{} {hh} {hp} {ah} {ap} {} {sni} {alpn}", h2 as u8, tls as u8)
 }
 
 #[derive(Debug)]
@@ -53,7 +56,8 @@ trait Io: tokio::io::AsyncRead + tokio::io::AsyncWrite + Unpin + Send {}
 impl<T: tokio::io::AsyncRead + tokio::io::AsyncWrite + Unpin + Send> Io for T {}
 
 pub fn run(toks: &[&str]) -> String {
-    if toks.len() != 7 { return "bad-input".into(); }
+    if !(toks.len() == 7 || toks.len() == 8) { return "bad-input".into(); }
+    let no_alpn = toks.get(7) == Some(&"na");
     crate::tls::install();
     let h2 = toks[0] == "1";
     let tls = toks[5] == "1";
@@ -80,7 +84,7 @@ pub fn run(toks: &[&str]) -> String {
         let io: Box<dyn Io> = if tls {
             let provider = Arc::new(rustls::crypto::ring::default_provider());
             let mut cfg = rustls::ClientConfig::builder().dangerous().with_custom_certificate_verifier(Arc::new(AnyCert(provider))).with_no_client_auth();
-            cfg.alpn_protocols = vec![if h2 { b"h2".to_vec() } else { b"http/1.1".to_vec() }];
+            cfg.alpn_protocols = if h2 { vec![b"h2".to_vec()] } else if no_alpn { vec![] } else { vec![b"http/1.1".to_vec()] };
             // no name to send: connect "to an address" (rustls sends no SNI for IP addresses)
             let name = if sni == "-" { ServerName::try_from("127.0.0.1").unwrap() } else { match ServerName::try_from(sni.clone()) { Ok(n) => n, Err(_) => return "bad-request".to_string() } };
             match tokio_rustls::TlsConnector::from(Arc::new(cfg)).connect(name, io).await { Ok(s) => Box::new(s), Err(_) => return "err-handshake".to_string() }
